@@ -19,7 +19,7 @@ import tracemalloc
 from collections import deque, OrderedDict, defaultdict
 
 from .. import worlds
-from ..canon import outcome_of, immutable_part, diff_dumps
+from ..canon import outcome_of, immutable_part, diff_dumps, canon
 from ..seams import (Stepper, Ambient, UserFuncs, SimInterrupt, SimBudget,
                      SimFS, install_fs, uninstall_fs)
 from . import c04
@@ -530,9 +530,12 @@ def soak_loop(evaluate_of, targets, rounds, interrupt_every, steps_for):
     h = hashlib.blake2b(digest_size=8)
     calls = fired = 0
     base_bytes = 0
+    first = []          # outcomes of round 1 (allocated before the 1st mark)
+    changed = []        # first call whose outcome differs from round 1
     for r in range(1, rounds + 1):
-        for t in targets:
+        for i, t in enumerate(targets):
             calls += 1
+            o = None
             at = None
             if interrupt_every and calls % interrupt_every == 0:
                 at = steps_for(t)
@@ -543,20 +546,34 @@ def soak_loop(evaluate_of, targets, rounds, interrupt_every, steps_for):
                     with st:
                         v = evaluate(t)
                     h.update(repr(v).encode())
+                    if st.fired is None:
+                        o = _soak_outcome(v)
                 except SimInterrupt:
                     fired += 1
                 except SimBudget:
                     pass
-                except Exception:
+                except Exception as e:
                     h.update(b'exc')
+                    if st.fired is None:
+                        o = 'exc:' + type(e).__name__
+                    e = None
                 st = None
             else:
                 try:
                     v = evaluate(t)
                     h.update(repr(v).encode())
-                except Exception:
+                    o = _soak_outcome(v)
+                except Exception as e:
                     h.update(b'exc')
+                    o = 'exc:' + type(e).__name__
+                    e = None
             v = None
+            if r == 1:
+                first.append(o)
+            elif o is not None and first[i] is not None and \
+                    o != first[i] and not changed:
+                changed.append([r, t, first[i][:300], o[:300]])
+            o = None
         if r in marks:
             gc.collect()
             objs = gc.get_objects()
@@ -573,7 +590,12 @@ def soak_loop(evaluate_of, targets, rounds, interrupt_every, steps_for):
             elif r == marks[2]:
                 grown = tracemalloc.get_traced_memory()[0] - base_bytes
                 tracemalloc.stop()
+    soak_loop.changed = changed[0] if changed else None
     return counts, grown, h.hexdigest(), calls, fired, slots, blocks
+
+
+def _soak_outcome(v):
+    return json.dumps(canon(v), sort_keys=True)
 
 
 def run_soak(case):
@@ -613,6 +635,7 @@ def run_soak(case):
         counts, grown, digest, calls, fired, slots, blocks = soak_loop(
             evaluate_of, targets, rounds, knobs.get('interrupt_every', 0),
             lambda t: steps[t])
+    changed = soak_loop.changed
     d_obj = counts[2] - counts[1]
     d_slots = slots[2] - slots[1]
     d_blocks = blocks[2] - blocks[1]
@@ -629,7 +652,15 @@ def run_soak(case):
                 digest, fired])
     # bytes are corroboration only (tracemalloc sees interpreter noise), the
     # deterministic object count decides
-    if fired:
+    if changed is not None:
+        viol = {'tag': 'repetition-changes-outcome',
+                'detail': {'round': changed[0], 'target': changed[1],
+                           'round_1': changed[2], 'now': changed[3],
+                           'rounds': rounds,
+                           'why': 'the same cell, same inputs, same '
+                           'evaluator(s): the outcome depends on how often '
+                           'it has been evaluated'}}
+    elif fired:
         # An asynchronous abort is not an evaluation in the sense of the
         # statement (and a cycle through a half-built pandas/numpy object
         # array left behind by it cannot be avoided by the library): growth
